@@ -126,6 +126,7 @@ def shards(tier):
     for n in range(1, d["N"] + 1):
         for kind in M.FILL_KINDS:
             out.append({"drv": "split", "kind": kind, "n": n})
+    out.append({"drv": "stopfill"})
     for n in range(1, d["N"] + 1):
         out.append({"drv": "frs", "n": n})
     for n in range(1, d["N"] + 1):
@@ -428,6 +429,60 @@ def judge_run(res, cfg, length, with_none=False):
 
 
 # --------------------------------------------------------------------------------------------------
+# an element that refuses a value (LenaStopFill): the refused value is not part of any block
+
+class _StopStore(object):
+    """fill/compute element: stores values, raises LenaStopFill instead of storing the (j+1)-th."""
+
+    def __init__(self, j):
+        self.j, self.vals = j, []
+
+    def fill(self, value):
+        if len(self.vals) >= self.j:
+            raise lena.core.LenaStopFill()
+        self.vals.append(value)
+
+    def compute(self):
+        yield list(self.vals)
+
+    def reset(self):
+        self.j -= len(self.vals)
+        self.vals = []
+
+
+def judge_stopfill(res, n, j, reset, buffer):
+    """Fill until the element signals LenaStopFill, then request once (what Split does with such a
+    branch): the results are those of run() over the accepted values - complete blocks only."""
+    case = {"law": "stopfill", "n": n, "accepted": j, "reset": reset, "buffer": buffer}
+    kw = dict(bufsize=n, reset=reset)
+    kw["buffer_input" if buffer == "input" else "buffer_output"] = True
+    values = list(range(1, j + 3))
+    try:
+        fr = lena.core.FillRequest(_StopStore(j), **kw)
+        got = []
+        stopped = False
+        with step_budget(call_limit(len(values) + 2)):
+            for v in values:
+                try:
+                    fr.fill(v)
+                except lena.core.LenaStopFill:
+                    stopped = True
+                    break
+            got = list(fr.request())
+        want = list(lena.core.FillRequest(_StopStore(10 ** 6), **kw).run(iter(values[:j])))
+        problem = None if (stopped and got == want) else ("not-stopped" if not stopped else "results-differ")
+    except StepBudgetExceeded:
+        problem, got, want = "call-does-not-return", None, None
+    except Exception as e:  # noqa
+        problem, got, want = "exception " + type(e).__name__, None, None
+    res.case(nontrivial=j >= n, outcome=("stopfill", n, j, reset, buffer, repr(got)))
+    if problem:
+        res.violation(case, got, want, {"law": "stopfill", "defect": problem.split()[0], "reset": reset,
+                                        "buffering": buffer, "refused_value_would_complete_a_block":
+                                        (j + 1) % n == 0})
+
+
+# --------------------------------------------------------------------------------------------------
 # Split driver
 
 def _split_bufsizes(n):
@@ -549,6 +604,14 @@ def run_shard(p, tier):
     d = _dom(tier)
     res = Result()
     drv = p["drv"]
+    if drv == "stopfill":
+        for n in range(1, d["N"] + 1):
+            for j in range(0, 3 * n + 1):
+                for reset in (True, False):
+                    # with buffer_input the element is filled only inside request(): what a refusal
+                    # there means is not stated, so only the mode that fills the element in fill()
+                    judge_stopfill(res, n, j, reset, "output")
+        return res
     if drv == "run":
         n = p["n"]
         for cfg in configs(p["kind"], n):
@@ -586,6 +649,9 @@ def run_shard(p, tier):
 def replay(case):
     res = Result()
     law = case.get("law")
+    if law == "stopfill":
+        judge_stopfill(res, case["n"], case["accepted"], case["reset"], case["buffer"])
+        return result_violations(res)
     cfg = {k: case[k] for k in ("kind", "n", "buffer", "reset", "yor")}
     if law == "word":
         word = case["word"]
@@ -594,6 +660,8 @@ def replay(case):
         for i in range(1, len(word) + 1):
             if not judge_word(res, cfg, case["form"], word[:i], model, set()):
                 break
+    elif law == "stopfill":
+        judge_stopfill(res, case["n"], case["accepted"], case["reset"], case["buffer"])
     elif law == "run":
         judge_run(res, cfg, case["len"], bool(case.get("none_values")))
     elif law == "split":
